@@ -35,7 +35,7 @@ PROBES = ["waiter_cancelled_while_subscribed", "subscriber_block_left_by_excepti
           "delayed_resend_of_copy", "two_rlv_commands_both_handled", "rlv_partially_handled",
           "truthy_with_pending_take", "packet_hook_swallowed", "illegal_followup_rejected", "lifecycle_hook_raised",
           "send_orig_by_addon", "mutated_forward", "take_false_subscriber_saw_original", "late_send_of_observed_original",
-          "drop_after_take", "command_channel", "hook_raised", "object_hook_raised", "object_update_hooks",
+          "drop_after_take", "command_channel", "hook_raised", "subscriber_predicate_raised", "object_hook_raised", "object_update_hooks",
           "object_kill_hooks", "object_hook_raised_then_others_ran"]
 COMPONENTS = {
     "real": ["AddonManager.init / _call_all_addon_hooks / _call_module_hooks / _try_call_hook / handle_lludp_message "
@@ -79,7 +79,10 @@ def gen_plan(rng: random.Random, tier: str) -> dict:
         "tail": 1.5,
         # permanent plain subscribers on the session handler, in subscription order: a failing one must not
         # keep the ones after it from being notified
-        "plain_subs": rng.choice([[], ["observe"], ["raise", "observe"], ["observe", "raise", "observe"]]),
+        "plain_subs": rng.choice([[], ["observe"], ["raise", "observe"], ["observe", "raise", "observe"],
+                                  ["pred_raise", "observe"], ["observe", "pred_raise", "raise", "observe"]]),
+        # the same on every region's handler
+        "plain_subs_region": rng.choice([[], [], ["observe"], ["raise", "observe"], ["pred_raise", "observe"]]),
     }
     quiet = rng.random() < 0.2   # mostly well-behaved addons
     steps = []
@@ -197,6 +200,11 @@ def simplify_plan(plan):
     lr = cfg["lifecycle_raise"]
     if cfg.get("plain_subs"):
         yield {**plan, "cfg": {**cfg, "plain_subs": []}}
+    if cfg.get("plain_subs_region"):
+        yield {**plan, "cfg": {**cfg, "plain_subs_region": []}}
+    for key in ("plain_subs", "plain_subs_region"):
+        for i in range(len(cfg.get(key) or [])):
+            yield {**plan, "cfg": {**cfg, key: cfg[key][:i] + cfg[key][i + 1:]}}
     for h, flags in lr.items():
         if any(flags):
             yield {**plan, "cfg": {**cfg, "lifecycle_raise": {**lr, h: [False] * len(flags)}}}
@@ -520,19 +528,40 @@ def run_plan(plan: dict) -> RunResult:
         session = spec.session
         observed: Dict[int, Dict[int, int]] = {}     # observer index -> tag -> calls
 
-        def make_plain(i, kind_):
+        def make_plain(i, kind_, level):
             def _h(msg):
                 tag = tag_of_message(msg)
                 if tag is None:
                     return
-                rec.add(kind="plain_sub", idx=i, beh=kind_, tag=tag)
+                rec.add(kind="plain_sub", idx=i, beh=kind_, tag=tag, level=level)
                 if kind_ == "raise":
                     res.probe("plain_subscriber_raised")
                     raise make_exc("ValueError", "plain message_handler subscriber")
             return _h
-        for i, kind_ in enumerate(cfg.get("plain_subs", [])):
-            for nm in ("ChatFromViewer", "ChatFromSimulator", "ObjectUpdate"):
-                session.message_handler.subscribe(nm, make_plain(i, kind_))
+
+        keep_alive = []
+
+        def make_pred(i, level):
+            def _p(msg):
+                # a predicate written for one message shape, asked about another
+                if tag_of_message(msg) is None:
+                    return False
+                res.probe("subscriber_predicate_raised")
+                rec.add(kind="plain_pred_raised", idx=i, level=level)
+                raise make_exc("KeyError", "subscriber predicate")
+            return _p
+        for level, handlers, kinds in [("session", [session.message_handler], cfg.get("plain_subs", [])),
+                                       ("region", [r_.message_handler for r_ in session.regions],
+                                        cfg.get("plain_subs_region", []))]:
+            for i, kind_ in enumerate(kinds):
+                for handler_ in handlers:
+                    if kind_ == "pred_raise":
+                        # predicates are addon code too (wait_for / subscribe_async take one)
+                        keep_alive.append(handler_.wait_for(("ChatFromViewer", "ChatFromSimulator", "ObjectUpdate"),
+                                                            predicate=make_pred(i, level), take=False))
+                        continue
+                    for nm in ("ChatFromViewer", "ChatFromSimulator", "ObjectUpdate"):
+                        handler_.subscribe(nm, make_plain(i, kind_, level))
 
         # ---------------- lifecycle isolation: handle_init / handle_session_init --------------------
         def check_lifecycle(hook, since):
@@ -861,11 +890,13 @@ def run_plan(plan: dict) -> RunResult:
                                escaped=repr(a.escaped)[:120] if a.escaped else None)
             # ---- every permanent subscriber is notified exactly once, whatever the ones before it did --------
             if not swallowed:
-                calls = [e["idx"] for e in entries if e["kind"] == "plain_sub"]
-                want_calls = list(range(len(cfg.get("plain_subs", []))))
-                if calls != want_calls:
-                    return violate("C07/isolation/subscriber-skipped", tag=tag, called=calls, want=want_calls,
-                                   subs=cfg.get("plain_subs"))
+                for level, kinds in (("session", cfg.get("plain_subs", [])), ("region", cfg.get("plain_subs_region", []))):
+                    calls = [e["idx"] for e in entries if e["kind"] == "plain_sub" and e.get("level", "session") == level]
+                    # a subscriber whose predicate failed is not itself notified; everybody else is
+                    want_calls = [i for i, k_ in enumerate(kinds) if k_ != "pred_raise"]
+                    if calls != want_calls:
+                        return violate("C07/isolation/subscriber-skipped", tag=tag, level=level, called=calls,
+                                       want=want_calls, subs=kinds)
             if st["kind"] == "obj" and exp.direction == "in":
                 check_object_hooks(exp, entries, st, [obj_local(tag, i) for i in range(st["nobj"])],
                                    "handle_object_updated", swallowed)
